@@ -42,7 +42,8 @@ def action(futures, flips=False, oversize=False, spaced=1, adds=True):
              st.fixed_dictionaries(dict(kind=st.just('tp'), tp=lad, shape=st.sampled_from(['list', 'tuple', 'ndarray']))),
              st.fixed_dictionaries(dict(kind=st.just('both'), sl=lad, tp=lad)),
              st.fixed_dictionaries(dict(kind=st.just('sl'), sl=ladder(1, 1, 4, spaced=spaced), ref=st.just('entry'))),
-             st.just(dict(kind='liq'))]
+             st.just(dict(kind='liq')),
+             st.fixed_dictionaries(dict(kind=st.sampled_from(['nudge_sl', 'nudge_tp']), off=st.integers(1, 4)))]
     if adds:
         kinds.append(st.fixed_dictionaries(dict(kind=st.just('add'), frac=st.sampled_from([1.0, 0.5]), off=st.integers(-4, 4))))
     if flips and futures:
